@@ -5,6 +5,7 @@ from __future__ import annotations
 import ast
 
 from .common import *  # noqa: F401,F403
+from .common import bind_defaults
 from .common import SVC, MOD, AbsInt, AnalysisError, Ctx, Facts, Obj, Registry, UNKNOWN, U, Unit, call_name, own_nodes, parent, q, where
 from sa.absint import Rec
 from . import c01
@@ -97,7 +98,7 @@ def run_wcl(c: Ctx, handler: Rec, event: Rec, depth: int = 0):
     ov['._handler_dispatched_ancestor'] = lambda *a: depth
     ai = AbsInt(calls=ov)
     env = {ps[0]: Rec(name='A', _cls='EventBus'), ps[1]: event, ps[2]: handler, 'EventBus': Rec(dispatch=Obj('function', 'EventBus.dispatch'), _is_class=True)}
-    end = ai.run(w.node.body, env)
+    end = ai.run(w.node.body, bind_defaults(w, env))
     if ai.undecided:
         raise AnalysisError(f'_would_create_loop: test `{U(ai.undecided[0])[:80]}` is undecided for handler {dict(handler)!r:.120}')
     return ai.returns, (end, ai.raised)
@@ -367,6 +368,13 @@ def c07_9(c: Ctx) -> None:
     '(same obligation as C01.5)')
 def c07_8(c: Ctx) -> None:
     c01.c01_5(c)
+
+
+@ob('C07.10', 'COHERENCE', 'a memo in front of the handler lookup is kept coherent with the handler registry (same obligation as C01.13): a forwarding handler registered after the memo was filled must be seen by later events, otherwise a reachable bus never receives them')
+def c07_10(c: Ctx) -> None:
+    from .c01 import check_memo_coherence
+
+    check_memo_coherence(c)
 
 
 OBLIGATIONS = ob.obs
